@@ -28,7 +28,7 @@ func smallAlphabet() []string {
 		}
 		out = append(out, "del "+hx.Hex(k))
 	}
-	return append(out, "commit", "reopen", "dbcommit", "snap", "fork")
+	return append(out, "commit", "reopen", "dbcommit", "snap", "fork", "commitref", "updroot 10")
 }
 
 // gen produces one structured, boundary-biased history over a key pool.
@@ -157,16 +157,32 @@ func (g *gen) op() string {
 		return "upd " + hx.Hex(g.key()) + " " + hx.Hex(g.value())
 	case c < 58:
 		return "del " + hx.Hex(g.key())
-	case c < 72:
+	case c < 70:
 		return "get " + hx.Hex(g.key())
-	case c < 77:
+	case c < 74:
 		return "hash"
-	case c < 84:
+	case c < 80:
 		return "commit"
-	case c < 88:
+	case c < 83:
 		return "reopen"
-	case c < 91:
+	case c < 86:
 		return "dbcommit"
+	case c < 91:
+		switch r.Intn(8) {
+		case 6, 7:
+			return "opendiskmut"
+		case 0:
+			return "updroot " + hx.Hex(g.key())
+		case 1:
+			return "commitref"
+		case 2:
+			return "dbstate"
+		case 3:
+			return "noderoot"
+		case 4:
+			return "blob " + hx.Hex(r.Bytes(r.Pick(0, 1, 31, 32, 33, 100)))
+		}
+		return "cachelimit " + strconv.Itoa(r.Pick(0, 0, 1, 2, 3, 65535))
 	case c < 92:
 		return "cachelimit " + strconv.Itoa(r.Pick(0, 0, 1, 2, 3, 65535))
 	case c < 94:
@@ -278,4 +294,35 @@ func boundaryHistories(r *hx.Rng, thorough bool) [][]string {
 		}
 	}
 	return out
+}
+
+// damage returns a node encoding that is valid, truncated, extended, or has one header / length /
+// content byte changed (boundary-biased), or is noise.
+func damage(r *hx.Rng, blob []byte) []byte {
+	b := append([]byte{}, blob...)
+	if len(b) == 0 {
+		return r.Bytes(1 + r.Intn(40))
+	}
+	switch r.Intn(8) {
+	case 0: // as is
+	case 1:
+		b = b[:r.Intn(len(b))]
+	case 2:
+		b = append(b, r.Bytes(1+r.Intn(3))...)
+	case 3:
+		b[0] = byte(r.Pick(0x00, 0x7f, 0x80, 0xb7, 0xb8, 0xbf, 0xc0, 0xc1, 0xc2, 0xd1, 0xf7, 0xf8, 0xf9, int(b[0])+1, int(b[0])-1))
+	case 4:
+		i := r.Intn(len(b))
+		b[i] = byte(r.Pick(0x00, 0x01, 0x7f, 0x80, 0x81, 0x9f, 0xa0, 0xa1, 0xb7, 0xb8, 0xc0, 0xdf, 0xe0, 0xe1, 0xff))
+	case 5:
+		i := r.Intn(len(b))
+		b[i] ^= 1 << uint(r.Intn(8))
+	case 6: // drop one byte in the middle
+		i := r.Intn(len(b))
+		b = append(b[:i], b[i+1:]...)
+	default:
+		i := r.Intn(len(b))
+		b = append(b[:i], append([]byte{byte(r.Intn(256))}, b[i:]...)...)
+	}
+	return b
 }
